@@ -13,6 +13,7 @@ import (
 
 	"github.com/anishathalye/porcupine"
 	"github.com/grafana/carbon-relay-ng/matcher"
+	"github.com/grafana/carbon-relay-ng/rewriter"
 	"github.com/grafana/carbon-relay-ng/table"
 	"github.com/grafana/carbon-relay-ng/validate"
 	m20 "github.com/metrics20/go-metrics20/carbon20"
@@ -38,7 +39,38 @@ type rec struct {
 	accepted bool
 }
 
+// reconf: an admin operation applied by a third thread while the dispatchers run. Order validation is a
+// property of the table, not of one table value: it must survive every reconfiguration.
+var reconfs = []struct {
+	name string
+	do   func(t *table.Table) error
+}{
+	{"none", nil},
+	{"delRoute(tmp)", func(t *table.Table) error { return t.DelRoute("tmp") }},
+	{"delRoute(unknown)", func(t *table.Table) error { return t.DelRoute("nope") }},
+	{"addRoute(tmp2)", func(t *table.Table) error {
+		t.AddRoute(harn.NewCapture("tmp2", harn.MustMatcher("zz", "", "", "", "", "")))
+		return nil
+	}},
+	{"addBlacklist", func(t *table.Table) error {
+		m := harn.MustMatcher("zy", "", "", "", "", "")
+		t.AddBlacklist(&m)
+		return nil
+	}},
+	{"delBlacklist(0)", func(t *table.Table) error { return t.DelBlacklist(0) }},
+	{"addRewriter", func(t *table.Table) error {
+		rw, err := rewriter.New("zz", "zy", "", -1)
+		if err != nil {
+			return err
+		}
+		t.AddRewriter(rw)
+		return nil
+	}},
+	{"delRewriter(0)", func(t *table.Table) error { return t.DelRewriter(0) }},
+}
+
 type exec struct {
+	reconf  int
 	scripts [][]op
 	recs    []*rec
 	clock   int64
@@ -72,6 +104,25 @@ func (e *exec) Body() {
 	}
 	t.AddRoute(e.cap)
 	finished := 0
+	want := len(e.scripts)
+	if e.reconf > 0 {
+		// entries the admin operations can remove; none of them touches the names of the scripts
+		t.AddRoute(harn.NewCapture("tmp", harn.MustMatcher("zz", "", "", "", "", "")))
+		bl := harn.MustMatcher("zx", "", "", "", "", "")
+		t.AddBlacklist(&bl)
+		rw, err := rewriter.New("zz", "zw", "", -1)
+		if err != nil {
+			panic(err)
+		}
+		t.AddRewriter(rw)
+		want++
+		vrt.GoNamed("admin", func() {
+			if err := reconfs[e.reconf].do(t); err != nil {
+				panic("admin operation failed: " + err.Error())
+			}
+			finished++
+		})
+	}
 	id := 0
 	for ti, sc := range e.scripts {
 		var mine []*rec
@@ -92,7 +143,7 @@ func (e *exec) Body() {
 			finished++
 		})
 	}
-	vrt.WaitUntil("join", func() bool { return finished == len(e.scripts) })
+	vrt.WaitUntil("join", func() bool { return finished == want })
 	vrt.Quiesce()
 	e.bad = map[string]string{}
 	for _, r := range t.Bad().Get(time.Hour) {
@@ -245,6 +296,18 @@ func main() {
 			for j := i; j < len(all); j++ {
 				add([][]op{all[i], all[j]}, b)
 			}
+		}
+	}
+	// reconfiguration while points flow: two script pairs x every admin operation
+	for ri := 1; ri < len(reconfs); ri++ {
+		for _, ss := range [][][]op{{{{"a", 2}, {"a", 1}}, {{"a", 2}}}, {{{"a", 2}, {".a", 2}}, {{"a", 1}}}} {
+			ri, cp := ri, ss
+			scns = append(scns, &vrt.Scenario{
+				Name:  fmt.Sprintf("%s || admin %s (bound 2)", scriptName(cp), reconfs[ri].name),
+				Cfg:   vrt.Config{Groups: map[string]bool{"c19": true}, Horizon: time.Hour},
+				Model: model_, Bound: 2,
+				New: func() vrt.Exec { return &exec{scripts: cp, reconf: ri} },
+			})
 		}
 	}
 	if !rep.Thorough() {
